@@ -2,6 +2,7 @@ package sym
 
 import (
 	"fmt"
+	"go/token"
 	"go/types"
 	"strings"
 
@@ -110,6 +111,13 @@ func (m *Machine) appendSlice(s Slice, add []Value, elem types.Type) Slice {
 	return out
 }
 
+func sitePos(site ssa.Instruction) token.Pos {
+	if site == nil {
+		return token.NoPos
+	}
+	return site.Pos()
+}
+
 func (m *Machine) callBuiltin(fn *ssa.Builtin, args []Value, site ssa.Instruction) Value {
 	switch fn.Name() {
 	case "len":
@@ -165,6 +173,20 @@ func (m *Machine) callBuiltin(fn *ssa.Builtin, args []Value, site ssa.Instructio
 			// copy source first: it may alias the destination
 			src := make([]Value, len(a))
 			copy(src, a)
+			if m.raceOn() {
+				// the race detector sees the reads of the appended elements and, when the result
+				// stays in the destination's backing array, the writes behind its length
+				pos := sitePos(site)
+				for i := range a {
+					m.raceKey(&a[i], false, pos)
+				}
+				if len(s)+len(a) <= cap(s) {
+					full := s[:len(s)+len(a)]
+					for i := len(s); i < len(full); i++ {
+						m.raceKey(&full[i], true, pos)
+					}
+				}
+			}
 			return m.appendSlice(s, src, elem)
 		case Str:
 			return m.appendSlice(s, []Value(m.strToBytes(a)), elem)
@@ -186,6 +208,17 @@ func (m *Machine) callBuiltin(fn *ssa.Builtin, args []Value, site ssa.Instructio
 		}
 		tmp := make([]Value, n)
 		copy(tmp, src[:n])
+		if m.raceOn() {
+			pos := sitePos(site)
+			if a, ok := args[1].(Slice); ok {
+				for i := 0; i < n; i++ {
+					m.raceKey(&a[i], false, pos)
+				}
+			}
+			for i := 0; i < n; i++ {
+				m.raceKey(&dst[i], true, pos)
+			}
+		}
 		for i := 0; i < n; i++ {
 			m.set(&dst[i], copyVal(tmp[i]))
 		}
